@@ -55,7 +55,7 @@ func getCA(name string, parent *CA, flavour string) *CA {
 	tmpl := &x509.Certificate{
 		SerialNumber:          nextSerial(),
 		Subject:               pkix.Name{CommonName: "ca-" + name, Organization: []string{"verif"}},
-		NotBefore:             now.Add(-24 * time.Hour),
+		NotBefore:             now.Add(-30 * 24 * time.Hour),
 		NotAfter:              now.Add(10 * 365 * 24 * time.Hour),
 		IsCA:                  true,
 		BasicConstraintsValid: true,
@@ -121,6 +121,9 @@ func mintLeaf(spec LeafSpec, pub crypto.PublicKey, issuer *CA) (*x509.Certificat
 	case "notyet":
 		tmpl.NotBefore = now.Add(time.Hour)
 		tmpl.NotAfter = now.Add(48 * time.Hour)
+	case "oldissued":
+		// valid now, issued 36 h ago (while an intermediate that expired 24 h ago was still valid)
+		tmpl.NotBefore = now.Add(-36 * time.Hour)
 	}
 	der, err := x509.CreateCertificate(rand.Reader, tmpl, issuer.Cert, pub, issuer.Key)
 	if err != nil {
@@ -135,7 +138,7 @@ func mintLeaf(spec LeafSpec, pub crypto.PublicKey, issuer *CA) (*x509.Certificat
 
 // ChainKind describes how the leaf is connected to the layout's root "rootA".
 // ground truth: does the leaf chain to a layout root through available intermediates, now?
-var chainKinds = []string{"direct", "inter-layout", "inter-caller", "inter2-mixed", "missing-inter", "expired-leaf", "notyet-leaf", "foreign-inter-caller", "foreign-root-caller",
+var chainKinds = []string{"direct", "inter-layout", "inter-caller", "inter2-mixed", "missing-inter", "expired-leaf", "notyet-leaf", "foreign-inter-caller", "foreign-root-caller", "expired-inter-old-leaf", "expired-inter-caller-old-leaf",
 	"foreign-root", "expired-inter", "nonca-issuer", "second-root"}
 
 type ChainSetup struct {
@@ -195,6 +198,19 @@ func setupChain(kind string) ChainSetup {
 	case "nonca-issuer":
 		s.Issuer = notCA
 		s.LayoutInters = []*CA{notCA}
+		s.GroundTruthOK = false
+	case "expired-inter-old-leaf":
+		// the intermediate HAS EXPIRED, the leaf is valid now and was issued while the intermediate
+		// was still valid: the chain must hold at VERIFICATION time, not at the leaf's issuance
+		// (seeded change c07-chain-time-at-leaf-notbefore)
+		s.Issuer = interExp
+		s.LayoutInters = []*CA{interExp}
+		s.LeafValidity = "oldissued"
+		s.GroundTruthOK = false
+	case "expired-inter-caller-old-leaf":
+		s.Issuer = interExp
+		s.CallerInters = []*CA{interExp}
+		s.LeafValidity = "oldissued"
 		s.GroundTruthOK = false
 	case "foreign-inter-caller":
 		// the CALLER supplies an intermediate that chains to a root the layout does not list: caller
